@@ -142,7 +142,7 @@ def enc_krome(r, idx, fmtkeys):
     # an absent bound is a keyword or - as KIDA-derived files and naunet's own KROME writer spell it - the sentinel -9999
     tmin_txt = f"{r['tmin']:g}" if r["tmin"] > 0 else r.get("krome_tmin_text", "NONE")
     vals = {"idx": str(idx), "tmin": tmin_txt, "tmax": r.get("krome_tmax_text") or (f"{r['tmax']:g}" if r["tmax"] > 0 else "N"),
-            "rate": f"{r['alpha']:.3e}*(T32)**({r['beta']:.2f})".replace("e-", "d-").replace("e+", "d")}
+            "rate": f"{r['alpha']:.3e}*(T32)**({r['beta']:.2f})".replace("e-", "d-").replace("e+", "d") + r.get("krome_rate_suffix", "")}
     ri, pi = iter(r["re"] + r["pseudo_re"]), iter(r["pr"])
     out = []
     for k in fmtkeys:
@@ -212,6 +212,8 @@ def gen_file(rng, fmt, n, layout=None, extra_markers=()):
         r = gen_abstract(rng, fmt)
         idx = numbering[i]
         if fmt == "krome":
+            # the call dexp(…) is respelled, an identifier that contains those letters is not
+            r["krome_rate_suffix"] = rng.choice(["", "", "*dexp(-1d0*Te)", "*user_dexp", "*dexp (Te)", "+xdexp", "/dexp(Te)*dexpected"])
             nr = sum(1 for k in fmtkeys if k.lower() == "r")
             npk = sum(1 for k in fmtkeys if k.lower() == "p")
             r["re"], r["pr"] = r["re"][:nr], r["pr"][:npk]
@@ -540,6 +542,7 @@ def run_c18(argv):
         d["allowed"], d["required"], d["cooling"] = [], [], []
         d["rate_modifier"] = {str(rng.choice([1, 2, 3])): rng.choice([0.0, 0, "0.0", 2.5e-10]), "5": rng.choice(["2.0 * zeta", 0.0, "1.0e-10"])}
         descs.append(d)
+    descs.append(c20.grain_species_desc(rng))
     c20.process(chk, descs, [])
     # exporting an edited network again into the same project directory: the project's files must describe the edited network
     from .c17 import run_worker, native
